@@ -1,3 +1,40 @@
-(* C08 - placeholder (DESIGN.md 7 C08). *)
-From DL Require Import Base Context.
-Example C08_placeholder : True. Proof. exact I. Qed.
+(* C08 - rejections are DLTypeErrors of the right kind with factually correct reports.
+   In the model a rejection is a structured value ([dlerr]); the theorems say what it asserts is true:
+   - [C08_first_failing_tensor]: the rejected tensor is preceded by a prefix of the queue that was accepted, and
+     it is judged in the context that prefix established (first-come-first-correct);
+   - [C08_tensor_report]: the report names that tensor (parameter name, name[i] for tuple element i>0, `return`,
+     field name: [tensor_arg_name]) and is either the standalone check's report (rank / dtype / literal axis with
+     the index in the actual tensor: C03_error_factual), a duplicate name, a group of another length, or an axis
+     report: index i in the actual shape, actual = the size there, expected <> actual, and expected is the
+     value the table holds for the axis' identifier or the value of its expression under the bindings established
+     so far; an invalid-reference report names a key that is really unbound and really occurs in the expression;
+   - the kind: EUnsupported comes only from [add] (a value that is not an array where one is required).
+   Arithmetic exceptions from undefined expressions are not DLTypeErrors (known finding K1): the model returns
+   DCrash for them and the correspondence check lists them. *)
+From DL Require Import Base Lexer Parser Eval Shape Dtypes Check Context CtxSound CtxComplete Reports.
+
+Theorem C08_first_failing_tensor : forall q c e, assert_context c q = DRej e ->
+  exists q1 t q2 c1, q = q1 ++ t :: q2 /\ assert_context c q1 = DOk c1 /\ assert_one c1 t = DRej e.
+Proof. exact assert_context_reject. Qed.
+Theorem C08_tensor_report : forall c t e, assert_one c t = DRej e -> tensor_report c t e.
+Proof. exact assert_one_reject. Qed.
+Theorem C08_axis_report : forall name sc idx d actual e, step_dim name sc idx d actual = DRej e -> axis_report name sc idx d actual e.
+Proof. exact step_dim_reject. Qed.
+Theorem C08_unsupported_only_from_add : forall c t, assert_one c t <> DRej EUnsupported.
+Proof.
+  intros c t H. apply assert_one_reject in H. unfold tensor_report in H.
+  destruct H as [H|[_ [[H _]|[(ds & i & d & s & sc_i & _ & _ & _ & _ & [(v & H & _)|(k & H & _)])|(b & k & _ & _ & _ & H)]]]]; try discriminate.
+  unfold check in H. destruct (check_rank _ _ _) as [[]|e|x] eqn:E1; cbn [dbind] in H.
+  - destruct (dtype_accepted _ _ _); cbn [dbind] in H; [|discriminate].
+    revert H. generalize (t_lits (a_ty (c_annot t))). induction l as [|[i v] l IH]; simpl; [discriminate|].
+    destruct (nth_error _ _); [|discriminate]. destruct (z =? v)%Z; [exact IH|discriminate].
+  - unfold check_rank in E1. destruct (t_mindex _); [destruct (_ <? _)|destruct (negb _)]; congruence.
+  - discriminate.
+Qed.
+Example tuple_element_is_named : 
+  tensor_arg_name {| c_idx := 1; c_name := "x"; c_tensor := {| x_lib := LNumpy; x_dt := KF32; x_shape := [] |};
+                     c_annot := {| a_ty := scalar_type; a_dtypes := []; a_opt := false |} |} = "x[1]".
+Proof. reflexivity. Qed.
+Redirect "C08.assumptions.1" Print Assumptions C08_first_failing_tensor.
+Redirect "C08.assumptions.2" Print Assumptions C08_tensor_report.
+Redirect "C08.assumptions.3" Print Assumptions C08_unsupported_only_from_add.
